@@ -292,8 +292,17 @@ def gen_iterative_cascade(rng):
         ranks.append([r1, r2])
     if rng.random() < 0.3:
         exprs[0] = "P[%s] = A[%s, %s] * X[%s] * V[%s]" % (a, a, b, b, b)
+    if rng.random() < 0.45:
+        # the same output written by two Einsums of the specification (its mapping entries are then used twice)
+        exprs.append("P[%s] = B[%s, %s] * X[%s]" % (a, b, a, b))
+        outs.append("P")
+        ranks.append([r1, r2])
     m = {"rank-order": {}, "loop-order": {}, "partitioning": {}}
+    seen_out = set()
     for o, rs in zip(outs, ranks):
+        if o in seen_out:
+            continue
+        seen_out.add(o)
         if rng.random() < 0.6:
             lo = list(rs)
             rng.shuffle(lo)
